@@ -163,6 +163,55 @@ for _n, _t in (('rgb8', 'rgb8_pixel_t'), ('bgr8', 'bgr8_pixel_t')):
                       assumed=['static_for_each pairs the three colour bases by semantic index (color_base_algorithm.hpp; C05 covers the constructors, not the recursive algorithms)',
                                'std_fill_t()(first_k, last_k, value_k) is std::fill over plane k']))
 
+# ---------------------------------------------------------------------------------------------------------------------------------------
+# detail::equal_n_fn<pixel<T,CS> const*, pixel<T,CS> const*>: the memcmp fast path of equal_pixels / std::equal - selected only for the homogeneous
+# pixel<T, Layout> type, whose every byte belongs to a channel (the specialisation pattern is part of the extraction anchor)
+X_EQ = [X('equal_n_memcmp', AL, r'struct equal_n_fn<pixel<T, CS> const\*, pixel<T, CS> const\*>\s*\{\s*BOOST_FORCEINLINE\s*bool operator\(\)\(pixel<T, CS> const\* i1, std::ptrdiff_t n, pixel<T, CS> const\* i2\) const\s*\{', count=1,
+          rules=[('R11.memcmp', r'memcmp\(i1, i2, n \* sizeof\(pixel<T, CS>\)\) == 0', 'MEMCMP_EQ(i1, i2, n * (ptrdiff_t)sizeof(px_t))', True)])]
+EQ_C = r'''
+typedef struct { unsigned char ch[PX_SIZE]; } px_t;            /* pixel<T, Layout>: sizeof == sum of the channel sizes (probe), no byte outside a channel */
+/* ghost: g_equal_upto = number of leading BYTES on which the two ranges agree (arbitrary); the per-pixel loop compares channel values, i.e. for a
+   pixel type without padding exactly these bytes */
+ptrdiff_t g_equal_upto;
+static _Bool MEMCMP_EQ(const px_t* a, const px_t* b, ptrdiff_t bytes) { __CPROVER_assert(bytes >= 0, "memcmp length is non-negative"); return g_equal_upto >= bytes; }
+_Bool equal_n_memcmp(const px_t* i1, ptrdiff_t n, const px_t* i2)
+__CPROVER_requires(0 <= n && n <= ((ptrdiff_t)1 << 40) && 0 <= g_equal_upto)
+__CPROVER_assigns()
+__CPROVER_ensures(RET == (g_equal_upto >= n * (ptrdiff_t)PX_SIZE))        /* true exactly when all n pixels (all of their bytes = all of their channels) are equal */
+@@equal_n_memcmp@@
+#ifndef VERIF_NATIVE
+void h_equal_n(void){ px_t* a; px_t* b; ptrdiff_t n, e; g_equal_upto = e; equal_n_memcmp(a, n, b);
+  __CPROVER_assert(PX_SIZE == PX_CHANNEL_BYTES, "the pixel type of the memcmp fast path has no byte outside its channels (sizeof(pixel) == num_channels * sizeof(channel))");
+  __CPROVER_assert(0, "VACUITY"); }
+#endif
+'''
+PROBE_EQ = r'''
+  P_VAL("PX_SIZE", (long)sizeof(EQP)); P_VAL("PX_CHANNEL_BYTES", (long)(num_channels<EQP>::value * sizeof(channel_type<EQP>::type)));
+'''
+REPLAY_EQ = r'''
+#include <boost/gil.hpp>
+#include <vector>
+#include <cstring>
+#include "vreplay.hpp"
+using namespace boost::gil;
+int main(int argc, char** argv){ vr::parse(argc, argv);
+  // packed pixels with storage bits no channel owns (rgb555 in uint16_t): two buffers that agree channel-wise but differ in the unused bit are equal pixel by pixel
+  using rgb555 = packed_pixel_type<std::uint16_t, boost::mp11::mp_list_c<unsigned, 5, 5, 5>, rgb_layout_t>::type;
+  for (int W : {1, 3}) for (int H : {1, 2}) for (int pad : {0, 2}) { std::vector<std::uint16_t> a((W + pad) * H, 0x1234), b((W + pad) * H, 0x1234 | 0x8000);
+    auto va = interleaved_view(W, H, (rgb555*)a.data(), (W + pad) * 2), vb = interleaved_view(W, H, (rgb555*)b.data(), (W + pad) * 2);
+    bool loop = true; for (int y = 0; y < H; y++) for (int x = 0; x < W; x++) if (!(va(x, y) == vb(x, y))) loop = false;
+    if (equal_pixels(va, vb) != loop) REPRODUCED("equal_pixels of two %dx%d rgb555 views (row padding %d) that are equal pixel by pixel (they differ only in the unused storage bit) returns %d", W, H, pad, (int)equal_pixels(va, vb)); }
+  // homogeneous pixels: equal_pixels agrees with the loop
+  for (int W : {1, 4}) for (int H : {1, 3}) { rgb8_image_t x(W, H, rgb8_pixel_t(1, 2, 3)), y(W, H, rgb8_pixel_t(1, 2, 3)); if (!equal_pixels(const_view(x), const_view(y))) REPRODUCED("equal rgb8 images compare unequal");
+    view(y)(W - 1, H - 1)[2] = 9; if (equal_pixels(const_view(x), const_view(y))) REPRODUCED("different rgb8 images compare equal"); }
+  NOT_REPRODUCED("equal_pixels agrees with the per-pixel comparison"); }
+'''
+
+for _n, _t in (('rgb8', 'rgb8_pixel_t'), ('rgba16', 'rgba16_pixel_t'), ('gray32f', 'gray32f_pixel_t')):
+    UNITS.append(Unit('equal_n.' + _n, 'C04', EQ_C, extracts=X_EQ, replay=REPLAY_EQ, probe=PROBE_EQ, probe_includes=['boost/gil.hpp'],
+                      insts=[(_n, 'quick', {'T_EQP': _t})], checks=[Check('equal_n', 'h_equal_n', enforce='equal_n_memcmp', timeout=300)],
+                      assumed=['memcmp(a, b, k) == 0 iff the first k bytes agree; channel values of float channels are compared bitwise by this fast path (as the library documents)']))
+
 META = dict(not_covered=['fill_pixels / std::fill overload, equal_pixels (equal_n_fn, memcmp lengths), for_each_pixel, generate_pixels, transform_pixels, copy_and_convert_pixels: not built',
                          'the per-pixel assignment itself (C05) and the 1-D traversability dispatch (is_1d_traversable is under contract in C03)'])
 
